@@ -198,7 +198,15 @@ pub fn gen_value(src: &mut Src, depth_left: usize, cfg: &GenCfg) -> J {
                     continue;
                 }
                 let v = gen_value(src, depth_left - 1, cfg);
+                // the "escape twin": a second member named like the minimal single-quoted *spelling* of this
+                // name (`a\b` next to `a\\b`, `'` next to `\'`) - what an implementation that forgets to decode
+                // an escape would look up
+                let twin = encode_min(&k, &Quote::S);
+                let want_twin = cfg.special_keys && twin != k && src.chance(1, 3);
                 m.push((k, v));
+                if want_twin && !m.iter().any(|(k2, _)| *k2 == twin) {
+                    m.push((twin, gen_scalar(src)));
+                }
             }
             J::Obj(m)
         }
